@@ -109,6 +109,48 @@ CLAIMED = {
             "serializers; checked u16 length prefixes. This covers all property kinds x packets without enumerating "
             "values. Byte-level round trips and user payload closures are not decided.",
             "DESIGN.md §4 C09"),
+    "C10": ("who-may-write + dependence (fields read by the ping-due test) + dominance/post-dominance + decision-table "
+            "extraction on mir_built — structure of the mechanism only",
+            "PARTIAL: static analysis decides only the structure of keep-alive — who arms/clears the two deadlines and with "
+            "which value shape, that the ping-due test depends only on keep-alive state, that every completed flush refreshes "
+            "the schedule, that expiry is tested before servicing and latches, that the read is raced against the minimum of "
+            "both deadlines, one shared constant, zero disables. Every arithmetic or temporal aspect (the gap never exceeding "
+            "the keep-alive, coincidences at the deadlines, >= vs >) is NOT decided: it needs a model of time.",
+            "DESIGN.md §4 C10"),
+    "C15": ("wiring of partial-I/O counts + value-set evaluation of the reader's look-ahead on mir_built",
+            "PARTIAL: static analysis decides only that partial-I/O counts are what advances state: commit(count of this "
+            "read), read_bytes += count, window from read_bytes, bounded look-ahead while the length is unknown, "
+            "bytes[written..] resume, cursor advance by the accepted count, zero-length I/O handling, take buffer[..len]. "
+            "Equality of whole runs under different chunkings is a relation between executions and is NOT decided.",
+            "DESIGN.md §4 C15"),
+    "C17": ("who-may-write / who-may-borrow-mutably census of the arena + dominance (compact before every view) + wiring",
+            "Static analysis, structural clauses only: every mutable arena view is buf[used..] after a dominating compact; "
+            "only compact and the DUP patch otherwise write arena bytes; the patch shape; compact's copy/bookkeeping/cursor "
+            "shape and order; (offset,len) wiring encoder -> retained entry -> step -> slice; writers of `used`; free space "
+            "is a function of the retained entries. Leak freedom over long histories is argued from these who-may-write "
+            "facts (they hold for histories of any length), not measured; compact's arithmetic is not evaluated.",
+            "DESIGN.md §4 C17"),
+    "C18": ("decision-table extraction of Session::status by constraint-tracking path enumeration + wiring + path-sensitive "
+            "must-pass in the five acknowledgement arms",
+            "Static analysis, structural clauses only: status table (generation first; retained / release-list membership "
+            "per kind); lookups compare identifiers; handle creation wiring (kind, allocator id, current generation, only "
+            "after enqueue); in each ack arm removal precedes the reason check, the failure is returned and surfaced, and a "
+            "failing PUBREC leaves no release entry. Identifier reuse is C07.",
+            "DESIGN.md §4 C18"),
+    "C19": ("decision-table extraction (135 cells) and interval extraction of value predicates vs MQTT 5; sibling coverage "
+            "valid_for vs serialize; dominance of validation over every effect; wiring of the effective QoS",
+            "Static analysis, structural clauses only: is_valid_for table vs MQTT 5 (must-accept / must-reject / don't-care); "
+            "value predicates as intervals; valid_for covers everything serialize emits; validation with the right context "
+            "dominates allocation, encode, enqueue, quota and writes; empty lists refused first; downgraded QoS used "
+            "everywhere; DISCONNECT scratch (known finding). All 27 kinds x 5 contexts are decided as table cells.",
+            "DESIGN.md §4 C19"),
+    "C20": ("wiring chain (expression reconstruction) from inbound property lookup to the reply publication + "
+            "fallible-conversion census",
+            "Static analysis, structural clauses only: each link of the chain response_topic/correlation_data -> "
+            "response_target -> publication -> correlate/with_correlation -> with_properties keeps exactly the requester's "
+            "topic and correlation data; lookups are independent fresh iterations (position independent); owned copies use "
+            "only fallible conversions mapped to BufferTooSmall. Byte-level encoding is C09.",
+            "DESIGN.md §4 C20"),
 }
 
 NOT_APPLICABLE = {
